@@ -136,3 +136,21 @@ package electricpb
 //@   track DecodeString
 //@   ensures [alphabet] calls(DecodeString) > old(calls(DecodeString)) ==> lastarg(DecodeString, 0) == base64.StdEncoding
 //@   ensures [decoded] token != "" ==> calls(DecodeString) == old(calls(DecodeString)) + 1
+//@
+//@ property C14
+//@ // ---- the one Update of this server that the C14 template (verif_contracts_c14.go) does not fit: the active mode is
+//@ // changed by id.  A request without an id is rejected before the model is asked; otherwise the id reaches the model
+//@ // unchanged and the model's verdict (the stored mode, or the error) goes back unchanged ----
+//@ func (*Model).ChangeActiveMode(id) (res, err)
+//@   trusted
+//@   option opaque
+//@   modifies all
+//@
+//@ func (*ModelServer).UpdateActiveMode(ctx, request) (res, err)
+//@   requires recv != nil && recv.model != nil
+//@   track ChangeActiveMode
+//@   letold noid := request == nil || request.ActiveMode == nil || request.ActiveMode.Id == ""
+//@   letold id := request.ActiveMode.Id
+//@   ensures [rejected] noid ==> err != nil && res == nil && calls(ChangeActiveMode) == old(calls(ChangeActiveMode))
+//@   ensures [forwarded] !noid ==> calls(ChangeActiveMode) == old(calls(ChangeActiveMode)) + 1 && lastarg(ChangeActiveMode, 0) == old(recv.model) && lastarg(ChangeActiveMode, 1) == id
+//@   ensures [answer] !noid ==> res == lastcall(ChangeActiveMode, 0) && err == lastcall(ChangeActiveMode, 1)
